@@ -228,6 +228,7 @@ def run_agnostic(ctx, fedjax, jax, jnp, cfg, h, cache):
   first_nan_params = None
   nontrivial = False
   ctx.klass(f'agnostic:W={W}')
+  ctx.klass("agnostic:domain_algorithm=" + ('none' if cfg[-1] % 4 == 0 else 'eg'))   # 'none': weights fixed, window still slides
   ctx.klass(f'agnostic:nd={nd}')
   ctx.klass(f'agnostic:dlr={dlr}')
   for rnd, cohort_idx in enumerate(h['cohorts']):
@@ -769,7 +770,7 @@ def run(ctx):
         _pel, toy.fedjax_optimizer(cspec), toy.fedjax_optimizer(sspec),
         fedjax.ShuffleRepeatBatchHParams(batch_size=BATCH, num_epochs=1, seed=hseed),
         fedjax.PaddedBatchHParams(batch_size=BATCH), init_domain_weights=np.asarray(init_w, np.float64),
-        domain_learning_rate=dlr, domain_algorithm='eg', domain_window_size=W,
+        domain_learning_rate=dlr, domain_algorithm=('none' if hseed % 4 == 0 else 'eg'), domain_window_size=W,
         init_domain_window=np.asarray(init_win, np.float32))
 
   cache = AlgoCache(build_agnostic, keep=1)
